@@ -6,7 +6,8 @@ import time
 EFF = {"pa": "print('a')", "pae": "print('a', end='')", "pn": "print()", "pas": "print('a ')",
        "pab": "print('a', 'b', sep='\\t')", "w": "sys.stdout.write('b')", "sp": "print('  ')",
        "pnn": "print('\\n')", "in": "v = input('p')", "ina": "v = ask('p')", "st": "sys.settrace(None)",
-       "im": "import helper_mod", "cb": "hook()"}
+       "im": "import helper_mod", "cb": "hook()",
+       "wsv": "saved_out.write('c')"}
 HELPER_MOD = "def helper_value():\n    return 41\nLOADED = helper_value() + 1\n"
 EXTRA_FILES = {"helper_mod.py": HELPER_MOD, "bad_mod.py": "y = 2\nraise ValueError('in helper file')\n",
                "exit_mod.py": "import sys\nsys.exit(2)\n", "fn_mod.py": "def boom():\n    raise KeyError('k')\n",
@@ -68,6 +69,7 @@ STUDENT_LINE = {"exc", "excBrokenStr", "excBrokenRepr", "raiseSysExit", "sysexit
                 "x:warn", "x:stopasync", "x:argsnonstr", "x:tuplekey", "x:noSetattr", "x:noGetattr", "x:slots", "x:argsProp", "x:keySub", "x:chained", "x:ctxchained", "x:syntaxBare"}
 PRELUDE = """import sys
 ask = input
+saved_out = sys.stdout
 class BrokenStr(Exception):
     def __str__(self):
         raise RuntimeError('no str for you')
